@@ -132,7 +132,7 @@ func nfcTable(doc writers.LDoc) string {
 
 // implRead is tabula's answer through the public API: the page count, then the fragment
 // texts of every page in the order the content shows them.
-func implRead(c *hx.Ctx, k kase, path string) (string, bool) {
+func implRead(c *hx.Ctx, k interface{}, path string) (string, bool) {
 	out := "err"
 	ok := c.Guard("C01", k, 30, func() {
 		ext := tabula.Open(path)
@@ -173,6 +173,7 @@ func readOp(c *hx.Ctx, k kase, tr *writers.Trace, path string) {
 		return
 	}
 	c.Op("c01.read "+absFileFields(tr)+" "+inflateTable(tr)+" "+nfcTable(k.Doc), got)
+	bytesOps(c, k, path, inflateTable(tr), nfcTable(k.Doc), got)
 }
 
 func countLayout(c *hx.Ctx, lay writers.Layout) {
